@@ -30,6 +30,7 @@ type Cfg struct {
 	MapOrderReverse bool
 	MapOrderIn      string // explore every iteration order of maps with 2..3 entries ranged over in functions whose name contains this
 	SolverTimeoutMs int
+	SlowBudget      int  // slow=N: how often time may pass while a goroutine is runnable
 	SchedFIFO       bool // sched=fifo: no scheduling decisions (run to block, then the oldest runnable goroutine)
 	Workers         int
 	SampleEvery     int
@@ -155,6 +156,7 @@ type Interp struct {
 	preemptions int
 	schedTrace  []string
 	opTrace     []opRec
+	slowUsed    int
 	frameSerial int
 	chanSeq     int
 
